@@ -25,6 +25,8 @@ type rnode struct {
 	id     int
 	heap   bool // field, global or default region (visible outside the function)
 	desc   string
+	pkgs   map[string]bool // packages whose code handles values of this region
+	declPkg string         // default region of a named map type: the package declaring the type
 }
 
 type regions struct {
@@ -38,6 +40,7 @@ type regions struct {
 	escapes  map[*ssa.Parameter]bool
 	changed  bool
 	byID     map[int]*rnode
+	curPkg   string
 }
 
 func (r *regions) mk(desc string, heap bool) *rnode {
@@ -71,6 +74,12 @@ func (r *regions) union(a, b *rnode) {
 	// a survives
 	b.parent = a
 	a.heap = a.heap || b.heap
+	if a.pkgs == nil {
+		a.pkgs = map[string]bool{}
+	}
+	for k := range b.pkgs {
+		a.pkgs[k] = true
+	}
 	ae, be := a.elem, b.elem
 	if ae == nil {
 		a.elem = be
@@ -99,6 +108,9 @@ func (r *regions) defaultNode(t types.Type) *rnode {
 		return n
 	}
 	n := r.mk("T:"+shortType(t), true)
+	if nt, ok := t.(*types.Named); ok && nt.Obj().Pkg() != nil {
+		n.declPkg = nt.Obj().Pkg().Path()
+	}
 	r.deflt[k] = n
 	// the elements of a default region of map-of-map type are the default region of the element type
 	if mt, ok := t.Underlying().(*types.Map); ok && isMapType(mt.Elem()) {
@@ -133,7 +145,39 @@ func (r *regions) node(v ssa.Value) *rnode {
 		n = r.mk(fmt.Sprintf("%T:%s", v, v.Name()), false)
 	}
 	r.val[v] = n
+	if r.curPkg != "" {
+		if n.pkgs == nil {
+			n.pkgs = map[string]bool{}
+		}
+		n.pkgs[r.curPkg] = true
+	}
 	return n
+}
+
+// regionOnlyIn: values of the region occur only in code of the given package.
+func (e *Engine) regionOnlyIn(region, pkg string) bool {
+	var id int
+	fmt.Sscanf(region, "R%d", &id)
+	n := e.reg.byID[id]
+	if n == nil {
+		return false
+	}
+	orig := n
+	n = e.reg.find(n)
+	if orig.declPkg == pkg && n == orig && len(n.pkgs) == 0 {
+		// default region of a map type declared in pkg that never got mixed with anything else: only code
+		// that can name the type can reach such maps
+		return true
+	}
+	if len(n.pkgs) == 0 {
+		return false
+	}
+	for k := range n.pkgs {
+		if k != pkg {
+			return false
+		}
+	}
+	return true
 }
 
 func ptrOrSelf(t types.Type) types.Type {
@@ -229,6 +273,18 @@ func (e *Engine) computeRegions() {
 }
 
 func (r *regions) analyze(f *ssa.Function) {
+	if f.Pkg != nil {
+		r.curPkg = f.Pkg.Pkg.Path()
+	}
+	for _, p := range f.Params {
+		if isMapType(p.Type()) {
+			n := r.find(r.node(p))
+			if n.pkgs == nil {
+				n.pkgs = map[string]bool{}
+			}
+			n.pkgs[r.curPkg] = true
+		}
+	}
 	for _, b := range f.Blocks {
 		for _, in := range b.Instrs {
 			switch i := in.(type) {
